@@ -101,17 +101,17 @@ printing) is never compared; it is retried or skipped and counted.
 | C06 | relational (layout) | blank lines, comment lines, two of them, three-line =begin/=end blocks at safe boundaries, final newline dropped/doubled, string literals widened by a real newline or a backslash-newline: rows map, everything else equal; adjacency family (`c06adj.go`): 38 complete statements x 28 following statements whose first token could continue an expression (`if`/`unless`/`while`/`until`, `[`, `(`, `!`, literals) plus 16 body headers (`in`/`when`/`else`/`rescue`/`do`/`def` ...) x the same 28, the line inserted exactly between the two (300 random pairs quick, all pairs thorough) |
 | C07-C09 | reference model | `typed.go`: 320 generated programs over the shipped and 4 generated configurations: literals, ternary unions, reassignment, array/hash literals (nested too), indexing, push/<< growth, calls (own, inherited, Object methods, keywords, overloads, union receivers, Untyped members, multi-line argument lists and blocks, calls nested in if/unless/while/elsif/blocks); model `cfgmodel.go` = documented meaning of .ti-config; C07 certain-fail rows need a diagnostic on the row the call starts on, C08 certain-ok rows need none, C09 probes compared as type sets (nested arrays as (depth, class) pairs); string literal texts that look like other tokens (`"*star"`, `"&blk"`, `"**kw"`, `":sym"`, `"12"`); `Hash#delete` on hashes with several value classes; a printed union with a union inside is a violation by itself (`union-not-flat`) |
 | C10 | reference model | 300 programs, ~10k probes: if/unless/elsif/else nested to depth 3, `x.nil?`, `!x.nil?`, `x.is_a?(C)`, && chains over distinct and the same variable, unrelated statements and inner conditionals, also inside a method; variants include `Array<..>` and `Hash`; one condition in five does not split the variants (class test of an already narrowed variable, `nil?` of a non-nil one, `is_a?` of a foreign class: only the side keeping every variant is judged); one program in four uses global variables tested in a top-level, instance or class method |
-| C11 | relational (independence) | insertion of independent fragments (must be diagnostics-free alone) before real statements of hosts; host rows map, host output equal |
+| C11 | relational (independence) | insertion of independent fragments (17 kinds, must be diagnostics-free alone; `raise` and `return` fragments at top-level boundaries only) before real statements of hosts (26 state-sensitive statement shapes, each paired with each fragment kind); host rows map, host output equal |
 | C12 | state-invariant hook | the rendered builtin table (`base.VerifDumpBuiltin`) before and after analysing sweep programs that call every configured method through every strategy |
-| C13 | relational (renaming) | consistent renaming of locals, ivars, methods, classes, keywords to fresh names of the same kind |
-| C14 | relational (keyword order) | permutations of keyword arguments at call sites of user and configured methods, union/nilable receivers, expression values |
-| C15 | reference model | 300 programs: 1-4 user methods (top/instance/class; positional, default, 1-2 keywords), 1-5 call sites (before/after the def, inside other methods, through a caller's parameter, as an expression on it), body probes, -i signature, --hover |
-| C16 | reference model | 300 hierarchies: depth 0-3, modules included/extended, def self./class << self, reopenings, namespaces 1-4 deep with the superclass in an enclosing one, initialize arity, private/protected (also from modules), names colliding with configured classes of other frames |
+| C13 | relational (renaming) | consistent renaming of locals, ivars, methods, classes, keywords to fresh names of the same kind (1, 2, 8, 30 characters; leading/trailing underscore, digits, inner capital, acronym-prefixed class names); 18 binding-form templates (array/class/hash patterns, block parameters, multiple and or-assignment, for, rescue, parameters, shadowing, classes referenced by `new`, class method, namespace, superclass) |
+| C14 | relational (keyword order) | permutations of keyword arguments at call sites of user and configured methods, union/nilable receivers, expression values; methods with `**opts` that print everything derived from the hash; shorthand keywords (`name:`); one argument per line |
+| C15 | reference model | 300 programs: 1-4 user methods (top/instance/class; positional, default, 1-2 keywords), 1-5 call sites (before/after the def, inside other methods, through a caller's parameter, as an expression on it), body probes, -i signature, --hover; explicit `return` in nine positions (modifier, inside if/while/case/block, bare); bodies ending in an instance of a top-level or namespaced user class |
+| C16 | reference model | 300 hierarchies: depth 0-3, modules included/extended, def self./class << self, reopenings, namespaces 1-4 deep with the superclass in an enclosing one, initialize arity, private/protected (also from modules), names colliding with configured classes of other frames; visibility given by section keyword, by `private def m`, or by `private :m` after the definition |
 | C17 | reference model | 300 programs, ~3800 probes: block calls (do/end, braces) on arrays, hashes, integers, strings, ranges, with and without arguments, generated configured classes; 0-3 parameters, shadowing, nesting, block locals; an outermost block outside a method ends one time in three in a reported statement (undefined method, Integer + String) |
-| C18 | relational (preload split) | a program split at nesting-aware top-level boundaries into 1-3 preloaded files + target vs. the whole program; one case in five black-box direct |
+| C18 | relational (preload split) | a program split at nesting-aware top-level boundaries into 1-3 preloaded files + target vs. the whole program; one list in eight also names a file that does not exist; one case in five black-box direct |
 | C19-C21 | relational (configuration pairs) | `cfgrel.go`: renamed shipped files, classes split over files (`extends` in one or all parts, overloads kept together), extra unmentioned classes (fresh, namespaced, reusing user-class, module, core-class short names, forward-referenced superclasses), long vs compact notation (unions up to four members, Untyped members) |
 | C22 | reference model over -i / --define / --hover | 150 programs, ~1800 runs: def rows, c//i/ tags, visibility in effect (sections, class << self with own sections, nested classes), endless and two-line defs, every call row hovered |
-| C23 | reference model over --suggest | ~240 queries: user hierarchies with unique names (include, extend, both, module functions, factories in a foreign class), core literals, generated configured classes |
+| C23 | reference model over --suggest | ~240 queries: user hierarchies with unique names (include, extend, both, module functions, factories in a foreign class; part of the chain in another namespace than its superclass, mixins named `Drawing::Mixa`, a singleton block inside a private section), core literals (also of a core class the program reopens), generated configured classes; the cursor on the last row or inside a method body (`obj.`, `Klass.`, `self.` in instance and class methods) |
 | C24 | reference model over --llm-nav | 120 programs, ~800 queries: call sites as multisets of (row, enclosing method, class), totals, callees |
 | C25 | converter monitor | generated RBS AST documents through a stand-in `ruby`; 6 conversions each (bytes equal), emitted shape vs declaration, arity through ti on untyped- and nested-class-typed parameters |
 | C26 | converter monitor | generated C sources (MRB_ARGS specs, mrb_get_args formats, mrbc argc patterns) vs ti's acceptance of 0..6 arguments |
@@ -174,6 +174,9 @@ build for C05); they are what `vp run` was used for.
   say which declaration answers: the return type is grey when an earlier
   declaration accepts part of a union argument. (The call itself stays
   certain-ok for C08.)
+* C11: `raise` and `return` fragments inserted INSIDE a method body changed the
+  method's signature (`-> Union<Bot NilClass>`): that is what these statements
+  mean there, not interference; they are judged at top-level boundaries only.
 * C17 (design decision, not an alarm): a reported statement inside a block
   abandons the enclosing bodies (ti's error recovery), so after it nothing
   inside them is judged; only the probes after the outermost block are.
@@ -225,7 +228,27 @@ for l in known:
     m = re.match(r'KNOWN-FINDING: property=(\S+) sig="([^"]*)" witness=(\S+) (.*)', l.strip())
     w(f"* **{m.group(1)}** `{m.group(2)}`: {m.group(4)}")
 w("""
-Why not repaired: the C19/C25/C26 findings need a different parameter binding
+A listed finding must not hide other defects of the same family. The C19
+signature used to cover every difference in the split-overloads family; a
+seeded change (parameter ids numbered per file) hid behind it. The family now
+runs a third configuration - ONE file with each method's declarations in the
+order the split files' names induce - and a difference counts as the listed
+finding only if the split configuration behaves exactly like that single file
+(event `split_overloads_explained_by_order`); anything else is reported as
+`...:not-explained-by-declaration-order:<diff>`. What remains hidden, by
+construction, is a defect whose only effect is to make one more observable
+depend on which declaration comes first (seeded change
+C19-empty-args-test-ignores-overloads): C19 cannot tell it from the listed
+finding; C08 and C09 catch it as a false alarm and a wrong return type.
+
+The C07 finding (calls without parentheses to parameterless methods) has one
+signature of its own (`missed:arity:no-parens:parameterless-method`), assigned
+when every declaration of the called method has no parameters; calls without
+parentheses to any other method keep their ordinary signatures.
+
+Why not repaired: the C07 finding conflicts with eight golden expectations
+(user methods whose parameters are still unknown in the first rounds look
+parameterless; `[1].each "a"` is frozen as a Block type mismatch). The C19/C25/C26 findings need a different parameter binding
 strategy (trailing positionals after optional ones, one stored parameter entry
 per keyword name across overloads, a primary overload chosen by load order):
 not a few lines. The C23 finding is one line, but ten of the project's own
@@ -275,7 +298,20 @@ frame-confusion defects were invisible; (4) namespaces were one level deep;
 path was invisible (C17); (7) statements were never placed next to each other
 by kind, so parser state leaking over a line end was invisible (C06 adjacency:
 it also found a genuine defect after `in Pattern => v`); (8) every test split
-the variants and every variable was a local (C10).
+the variants and every variable was a local (C10); (9) a listed finding with a
+family-wide signature hides every other defect of the family (C19); (10) the
+third round, for the properties that had had one round only, was missed 17
+times out of 20 at first: calls without parentheses, union arguments that are
+strict subsets of a parameter union, methods declared twice with a
+parameterless declaration first or last, chains of depth two under a
+redeclared Object method (C07/C08); fragments that raise, return or call an
+operator on a union (C11); names of unusual shape and locals bound by patterns
+(C13); **opts, shorthand keywords and one-argument-per-line calls (C14);
+methods returning instances (C15); a preload list naming a missing file (C18);
+namespaced includers and sibling superclasses (C20); ancestors in another
+namespace, singleton blocks in private sections, reopened core classes and a
+cursor inside a method body (C23). Five of these extensions exposed genuine
+defects of the unchanged tree, repaired as `fix:` commits.
 
 ### 11.8 Self-validation performed
 
